@@ -8,6 +8,7 @@ VARIANTS = ['1', '2', '3', '4', '5', '6.0', '6.1', '6.2', '6.3', '7.0', '7.1', '
 PIPELINED = VARIANTS[3:]
 MULTI = VARIANTS[5:]
 FUEL = 200000
+PROFILES = ['alu', 'ssa', 'hazard', 'branch', 'loops', 'shadow', 'ldslow', 'ldonly', 'disj', 'touched', 'mem', 'stld', 'tail', 'mixed', 'err']
 
 
 def pars_of(variant):
